@@ -1,6 +1,7 @@
 #include "tldevel.h"
 
 #include <ctype.h>
+#include <string.h>
 #include "msa_struct.h"
 #include "msa_check.h"
 #include "msa_op.h"
@@ -44,6 +45,17 @@ int kalign_msa_compare(struct msa *r, struct msa *t,  float *score)
 
         kalign_sort_msa(r);
         kalign_sort_msa(t);
+
+        /* the two alignments have to be alignments of the same sequences */
+        ASSERT(r->numseq == t->numseq, "The alignments contain different numbers of sequences (%d and %d).", r->numseq, t->numseq);
+        for(int i = 0; i < r->numseq;i++){
+                if(strncmp(r->sequences[i]->name, t->sequences[i]->name, MSA_NAME_LEN) != 0){
+                        ERROR_MSG("Sequence %s is not present in both alignments.", r->sequences[i]->name);
+                }
+                if(r->sequences[i]->len != t->sequences[i]->len){
+                        ERROR_MSG("Sequence %s has %d residues in one alignment and %d in the other.", r->sequences[i]->name, r->sequences[i]->len, t->sequences[i]->len);
+                }
+        }
 
         MMALLOC(stat, sizeof(struct cmp_stats));
         stat->identical_gaps = 0;
